@@ -1,7 +1,8 @@
 """Independent denotation of a score (what should sound), and readers of what the library renders.
 
 `spec_sound` is the property C03 states, written directly on the score structure: it does not call
-anything from musiclang.write.out.  Pitches come from `Chord.to_pitch` (the pitch calculus, C01/C09).
+anything from musiclang.write.out.  Pitches of non-relative notes come from the documented closed form (C01's oracle),
+those of relative notes from `Chord.to_pitch` (the pitch calculus, C09).
 """
 import sys
 sys.dont_write_bytecode = True
@@ -19,6 +20,26 @@ def part_names(score):
 
 def chord_duration(ch):
     return max([sum((Fraction(n.duration) for n in m.notes), Fraction(0)) for m in ch.score.values()], default=Fraction(0))
+
+
+def documented_pitch(ch, n):
+    """pitch of a non-relative note: the closed form written from the documentation (C01's independent oracle) where
+    it has an exact opinion, so that what should sound does not depend on the library's own pitch function (seed
+    C03-5 memoised that function on an equality that ignores the accidental: `ch.to_pitch` itself returned the
+    wrong pitch and an oracle built on it agreed with the renderer).  Otherwise `Chord.to_pitch`."""
+    got = int(ch.to_pitch(n))
+    if type(ch).__name__ != 'Chord':
+        return got
+    try:
+        from props.C01 import expected_pitch
+        exp = expected_pitch(ch, n)
+    except Exception:
+        return got
+    if exp is None:
+        return got
+    if isinstance(exp, tuple):
+        return got if exp[0] <= got <= exp[1] else int(exp[0])
+    return int(exp)
 
 
 def spec_sound(score, first_relative_reference=0):
@@ -49,7 +70,7 @@ def spec_sound(score, first_relative_reference=0):
                     elif n.is_relative:
                         p = int(ch.to_pitch(n, last_pitch=last if last is not None else first_relative_reference))
                     else:
-                        p = int(ch.to_pitch(n))
+                        p = documented_pitch(ch, n)
                     last = p
                     evs.append((p, t, d, int(n.amp)))
                     open_ev = len(evs) - 1
